@@ -224,6 +224,13 @@ class Weaver:
             if within is not None and not (within[0] <= c["span"][0] and c["span"][1] <= within[1] and c["span"] != list(within_self)):
                 continue
             cs = cl_specs.get(k)
+            # `leaf = true`: the contract was written over a closure body without closures of its own. Verus treats an unannotated
+            # closure as opaque, so a rewrite of the body into nested adaptor closures (`.and_then(|x| ..).map(|y| ..)`) could not
+            # be proved even when it is correct: that is undecided, never a violation.
+            if cs is not None and cs.get("leaf"):
+                nested = [c2 for c2 in closures if c2 is not c and c["body"][0] <= c2["span"][0] and c2["span"][1] <= c["body"][1]]
+                if nested:
+                    raise Undecided(f"anchor lost: closure {k} of {spec['path']} now contains {len(nested)} closure(s) of its own; its contract was written over a closure-free body")
             # R2: pattern parameters
             pre_lets = []
             for j, p in enumerate(c["inputs"]):
